@@ -163,6 +163,19 @@ def _amount(ctx, rep, eng, units):
                         and e2.int_range_of_group(P, g) is not None]
         for run in _runs_of(eng, rule):
             for p in run.paths:
+                if p.kind == "ret" and isinstance(p.val, NoneV) and digit_groups:
+                    # a written number together with a unit word must not be rejected: a path that
+                    # answers None although both groups took part, and that some number can take
+                    moid_ = [o.oid for o in p.st.heap.values() if o.sym == ("param", 0, rule.params[1])]
+                    cfgs_ = p.st.cfg.get(moid_[0]) if moid_ else None
+                    if cfgs_ and all(digit_groups[0] in cfg and any(g in ugroups for g in cfg) for cfg in cfgs_):
+                        from .common import path_feasible
+                        if path_feasible(eng, p) is True and any(
+                                "int" in repr(c_) and digit_groups[0] in repr(c_) for c_, _t in p.conds):
+                            bad = bad or "a written number with a unit word is rejected on a path that tests the " \
+                                "number's value ({}): e.g. 0 is a number too".format(
+                                    [str(c_)[:60] for c_, _t in p.conds if "int" in repr(c_)][:1])
+                    continue
                 if p.kind != "ret" or not isinstance(p.val, RefV):
                     continue
                 obj = p.st.heap[p.val.oid]
